@@ -1,4 +1,5 @@
 """C01 - StatsD lines aggregate to exactly the predicted Prometheus series."""
+import e2e_engine as E2E
 import gen_mapper as GM
 import gen_pipeline as GP
 import pipeline_check as PC
@@ -37,8 +38,19 @@ def monitor(rep, case, impl, model, payload):
 
 
 def run(rep, tier, seed, replay):
+    if not replay:
+        # the real binary over its sockets against the same model (main.go's wiring)
+        E2E.run(rep, "C01", tier, seed, n_quick=60, n_thorough=3000)
+        E2E.run(rep, "C01", tier, seed, n_quick=3, n_thorough=40, gen=E2E.gen_order_case, key="e2e_order")
     PC.run(rep, "C01", tier, seed, replay, gen_case, monitor, 400, 20000,
            "%(n)d (config x stream) cases: configs from the YAML grammar (glob/regex rules, $n labels, honor_labels, scale incl. 0/negative, observer "
            "types, histogram/summary options, match_metric_type, drop, defaults, ttl), 5-40 lines over all five stat types x four tag styles x sampling "
            "x multi-sample x extended aggregation, caches none/LRU/RR; every scrape compared in full (families, help, type, labels, values, buckets); "
            "non-trivial = final scrape has >= 2 families; distinct by op sequence")
+    if not replay:
+        rep.cov["rule"] += ("; plus %d end-to-end cases: the statsd_exporter binary built from /repo, started with the case's parser/cache flags, fed the lines over TCP, UDP or "
+                            "unixgram, reloaded over /-/reload, scraped over /metrics, and compared (families, help, type, labels, values, the exporter's own event/action/error/"
+                            "conflict/metrics counters, lines/packets/reload counters) with the same proved model" % rep.extra.get("e2e_cases", 0))
+        rep.cov["trusted_base"] = list(rep.cov["trusted_base"]) + [
+            "end-to-end engine: real time is not controlled (TTL-free configurations only); a scrape is taken once every sent line is counted and three consecutive scrapes agree; "
+            "the sign of a zero value is not observable in the text exposition"]
